@@ -195,3 +195,46 @@ Definition rr_calls (cs : list scall) : list (name * Z) :=
 Definition nsec_matches (got : name * name * list (Z * bytes)) (ref : name * name * list Z) : Prop :=
   fst (fst got) = fst (fst ref) /\ snd (fst got) = snd (fst ref) /\
   bitmap_wf (snd got) /\ is_type_set (snd ref) (bitmap_types (snd got)).
+
+(* ---------- RFC 8976 3.3 / 3.4: the ZONEMD SIMPLE digest input ---------- *)
+(* one resource record of the zone, RDATA in canonical form; q_covers is the type covered when
+   the record is an RRSIG (how the zone files RRSIGs), 0 otherwise *)
+Record zrr := { q_owner : name; q_type : Z; q_covers : Z; q_class : Z; q_ttl : Z; q_rdata : bytes }.
+
+Section Zonemd.
+  Variables (origin apex : name).
+
+  (* canonical RDATA of every record (RFC 4034 6.2), relative names completed with the origin *)
+  Definition rfc_rds_rrs (owner : name) (rds : zrds) : res (list zrr) :=
+    do cs <- map_res (fun fs => rfc4034_canonical_rdata (z_type rds) fs (Some origin)) (z_rdatas rds);
+    Ok (map (fun c => {| q_owner := owner; q_type := z_type rds; q_covers := z_covers rds;
+                         q_class := z_class rds; q_ttl := z_ttl rds; q_rdata := c |}) cs).
+  Definition rfc_node_rrs (nd : name * list zrds) : res (list zrr) :=
+    do l <- map_res (rfc_rds_rrs (fst nd)) (snd nd); Ok (concat l).
+  Definition rfc_zone_rrs (nodes : list (name * list zrds)) : res (list zrr) :=
+    do l <- map_res rfc_node_rrs nodes; Ok (concat l).
+
+  (* 3.3.1: all records of the zone except the apex ZONEMD RRset and the RRSIG covering it *)
+  Definition rfc_zonemd_included (r : zrr) : bool :=
+    negb (name_eqb (q_owner r) apex &&
+          ((q_type r =? tZONEMD) || ((q_type r =? tRRSIG) && (q_covers r =? tZONEMD)))).
+
+  (* 3.3.1: sorted by owner name in canonical order, then by type, then by canonical RDATA *)
+  Definition rfc_rr_le (a b : zrr) : Prop :=
+    order (q_owner a) (q_owner b) < 0 \/
+    (order (q_owner a) (q_owner b) = 0 /\
+     (q_type a < q_type b \/ (q_type a = q_type b /\ bytes_le (q_rdata a) (q_rdata b)))).
+
+  (* 3.4: each RR as owner | type | class | TTL | RDLENGTH | RDATA, owner and RDATA canonical *)
+  Definition rfc_owner_abs (n : name) : name := if is_absolute n then n else n ++ origin.
+  Definition rfc_rr_wire (r : zrr) : bytes :=
+    rfc_name_wire true (rfc_owner_abs (q_owner r)) ++ u16 (q_type r) ++ u16 (q_class r) ++ u32 (q_ttl r)
+    ++ u16 (zlen (q_rdata r)) ++ q_rdata r.
+
+  (* the digest input: the included RRs, sorted, serialised *)
+  Definition is_zonemd_input (nodes : list (name * list zrds)) (input : bytes) : Prop :=
+    exists all L, rfc_zone_rrs nodes = Ok all /\
+      Permutation L (filter rfc_zonemd_included all) /\
+      StronglySorted rfc_rr_le L /\
+      input = concat (map rfc_rr_wire L).
+End Zonemd.
